@@ -366,7 +366,12 @@ def finish(ctx: Ctx, aud, spec):
     'wall_s': round(ctx.elapsed(), 2),
     'violations': len(seen_keys),
   }
-  _write_json(os.path.join(VERIF, 'evidence', f'{ctx.prop}.json'), ev)
+  if os.path.realpath(REPO) == '/repo':
+    _write_json(os.path.join(VERIF, 'evidence', f'{ctx.prop}.json'), ev)
+  else:
+    # a run against a scratch checkout (seeded-change experiment): never overwrite the registered evidence
+    ev['repo_under_test'] = REPO
+    _write_json(os.path.join(VERIF, 'replays', 'scratch_evidence', f'{ctx.prop}.json'), ev)
   print(
     f'[{ctx.prop}] tier={ctx.tier} seed={ctx.seed} theorems={aud["discharged"]}/{aud["obligations"]} '
     f'cases={ctx.evaluations} distinct_nontrivial={len(ctx.distinct)} '
